@@ -7,6 +7,15 @@ open PedVerif.Checker
 #print axioms bareNode_ne_true
 #print axioms cfg_req_bare
 #print axioms cfg_req_bare_builtin
-#print axioms cfg_req_tType
 #print axioms cfg_bare
 #print axioms cfg_requiredTestFirst
+open PedVerif.Call
+#print axioms incomplete_param_never_returns
+#print axioms incomplete_param_is_typecheck
+#print axioms incomplete_return_never_returns
+#print axioms checkParams_incomplete
+#print axioms checkArguments_incomplete
+#print axioms incompleteTop_bare
+#print axioms cfg_star
+#print axioms cfg_dstar
+#print axioms cfg_completeBare
